@@ -76,7 +76,7 @@ pub fn exec_history(ops: &str) -> String {
                     cpu.bus.write_port(p, v);
                     "k".into()
                 }
-                "t" => match cpu.vh_update_modules(h(rest) as u8) {
+                "t" => match cpu.vh_update_modules(h(rest) as u16) {
                     Ok(()) => "k".into(),
                     Err(_) => "e".into(),
                 },
@@ -332,7 +332,7 @@ impl Mode for BusMode {
                             4 => {
                                 // a long run of maximal charges (needed for the /8192 clock)
                                 for _ in 0..rng.range(8, 40) {
-                                    h.push(format!("t{:x}", if rng.chance(1, 2) { 255 } else { rng.range(200, 255) }));
+                                    h.push(format!("t{:x}", match rng.below(3) { 0 => 255, 1 => 765, _ => rng.range(200, 765) }));
                                 }
                             }
                             5 => h.push(format!("wffff88:{:x}", rng.u8())),
@@ -340,7 +340,7 @@ impl Mode for BusMode {
                                 0 => 1,
                                 1 => rng.range(1, 8),
                                 2 => rng.range(1, 64),
-                                _ => rng.range(1, 255),
+                                _ => rng.range(1, 765),
                             })),
                         }
                     }
